@@ -251,6 +251,106 @@ def mail_leg(chk, tier):
                    "folders_without_items": ["%s %s" % m for m in missing][:20]}
 
 
+# ---- handler lists: what a link needs in order to be served depends on the handlers the site runs ----
+_MAIL = "mbox.MaildirFolderHandler, mbox.MaildirMessageHandler, "
+_MBOX = "mbox.MBoxMessageHandler, mbox.MBoxFolderHandler, "
+FULL_LIST = ("[url.HTMLURLHandler, gophermap.BuckGophermapHandler, " + _MAIL + "UMN.UMNDirHandler, tal.TALFileHandler, html.HTMLFileTitleHandler, " + _MBOX +
+             "pyg.PYGHandler, file.CompressedFileHandler, file.FileHandler, url.URLTypeRewriter]")
+HANDLER_LISTS = {
+    "shipped": None,
+    "bucktooth": "[url.HTMLURLHandler, gophermap.BuckGophermapHandler, file.FileHandler]",
+    "bucktooth-bare": "[gophermap.BuckGophermapHandler, file.FileHandler]",
+    "bucktooth-mail": "[url.HTMLURLHandler, gophermap.BuckGophermapHandler, " + _MAIL + _MBOX + "html.HTMLFileTitleHandler, file.FileHandler]",
+    "plain-dir": "[url.HTMLURLHandler, dir.DirHandler, file.FileHandler]",
+    "no-file-handler": "[url.HTMLURLHandler, gophermap.BuckGophermapHandler, " + _MAIL + "UMN.UMNDirHandler, " + _MBOX[:-2] + "]",
+    "directories-only": "[UMN.UMNDirHandler]",
+    "files-only": "[file.FileHandler]",
+    "documented-full": FULL_LIST,
+    "full-zip": FULL_LIST.replace("pyg.PYGHandler, ", "pyg.PYGHandler, ZIP.ZIPHandler, "),
+    "zip-first": "[ZIP.ZIPHandler, " + FULL_LIST[1:],
+}
+
+
+def bucktooth_tree():
+    """A site laid out the Bucktooth way: every menu is a gophermap, menus link (also deep, also back up) to menus and files;
+    directories on the way need no gophermap of their own.  Every link the author wrote leads to a gophermap directory or a file."""
+    def gm(*lines):
+        return "\n".join(lines) + "\n"
+    return [
+        {"path": "gophermap", "data": gm("iWelcome", "0About\t/about.txt", "1Project Alpha\t/projects/alpha", "1Beta, deep inside\t/projects/beta/releases/current",
+                                         "1Documents\tdocs", "0A relative file\tabout.txt", "1The list archive\t/lists/2024/announce", "hThe web\tURL:http://www.example.com/")},
+        {"path": "about.txt", "data": "about\n"},
+        {"path": "projects/alpha/gophermap", "data": gm("ialpha", "0Read me\treadme.txt", "1Sources\tsrc", "1Home\t/", "0Notes with a space\t/projects/alpha/release notes.txt")},
+        {"path": "projects/alpha/readme.txt", "data": "alpha readme\n"},
+        {"path": "projects/alpha/release notes.txt", "data": "notes\n"},
+        {"path": "projects/alpha/src/gophermap", "data": gm("0main.c\tmain.c", "1Back to alpha\t/projects/alpha")},
+        {"path": "projects/alpha/src/main.c", "data": "int main;\n"},
+        {"path": "projects/beta/releases/current/gophermap", "data": gm("0Change log\tCHANGES", "1One more level\tlevel/deeper")},
+        {"path": "projects/beta/releases/current/CHANGES", "data": "changes\n"},
+        {"path": "projects/beta/releases/current/level/deeper/gophermap", "data": gm("0leaf\tleaf.txt")},
+        {"path": "projects/beta/releases/current/level/deeper/leaf.txt", "data": "leaf\n"},
+        {"path": "projects/unlisted.txt", "data": "nothing links here\n"},
+        {"path": "docs/gophermap", "data": gm("0Guide\tguide.txt", "1caf\xc3\xa9 & co\t/docs/caf\xc3\xa9 & co/menu")},
+        {"path": "docs/guide.txt", "data": "guide\n"},
+        {"path": "docs/caf\xc3\xa9 & co/menu/gophermap", "data": gm("0only\tonly.txt")},
+        {"path": "docs/caf\xc3\xa9 & co/menu/only.txt", "data": "only\n"},
+        {"path": "lists/2024/announce/gophermap", "data": gm("0January\t01.txt", "1Home\t/")},
+        {"path": "lists/2024/announce/01.txt", "data": "january\n"},
+    ]
+
+
+def plain_tree():
+    """directories, files, mailboxes, an archive-free tree without gophermaps and link files: nothing a site author typed"""
+    return [e for e in trees.rich_tree(None, hostile=False, umn=False) if not e["path"].startswith("maps")] + [
+        {"path": "deep", "kind": "dir"}, {"path": "deep/er", "kind": "dir"}, {"path": "deep/er/still", "kind": "dir"},
+        {"path": "deep/er/still/x y.txt", "data": "xy\n"}, {"path": "deep/er/page.html", "data": "<html><head><title>P</title></head><body><a href=\"/nowhere\">author's link</a></body></html>\n"}]
+
+
+def handler_list_leg(chk, tier):
+    """Every local link of every page the server composes — entry rows and the navigation the renderer adds — under handler
+    lists other than the shipped one.  -> (found, coverage)"""
+    combos = []
+    for name in ("bucktooth", "bucktooth-bare", "bucktooth-mail", "shipped", "documented-full", "plain-dir", "directories-only"):
+        combos.append(("bucktooth-site", bucktooth_tree(), name))
+    for name in ("shipped", "plain-dir", "no-file-handler", "directories-only", "files-only", "documented-full", "full-zip", "zip-first"):
+        combos.append(("plain-site", plain_tree(), name))
+    jobs = []
+    for site, tree, name in combos:
+        for e in tree:
+            e.setdefault("mtime", 1_700_000_000)
+        cfg = dict(trees.SITE_CONFIG)
+        if HANDLER_LISTS[name] is not None:
+            cfg["handlers.HandlerMultiplexer"] = {"handlers": HANDLER_LISTS[name]}
+        if "zip" in name:
+            cfg["handlers.ZIP.ZIPHandler"] = {"enabled": "true"}
+        jobs.append({"op": "c05_crawl_all", "tree": tree, "config": cfg, "protos": gen.PROTOCOLS, "max_pages": 300, "_site": site, "_list": name})
+    found = False
+    nlinks = nnav = 0
+    per = {}
+    for j, r in zip(jobs, impl_run_parallel(jobs, chunks=min(len(jobs), 8))):
+        if not r["ok"]:
+            raise RuntimeError(r["err"] + "\n" + r.get("tb", ""))
+        key = "%s/%s" % (j["_site"], j["_list"])
+        per[key] = 0
+        for p in r["res"]["pages"]:
+            if p["parent"] is None:
+                continue
+            nlinks += 1
+            per[key] += 1
+            nnav += p["via"] == "page"
+            chk.count(("handlers", key, p["proto"], p["selector"]), nontrivial=True)
+            why = judge_page(p)
+            if why:
+                found = True
+                chk.violation({"what": "a local link of a page the server composed is not served: " + why, "protocol": p["proto"],
+                               "handler_list": HANDLER_LISTS[j["_list"]] or "(shipped conf/pygopherd.conf)", "site": j["_site"],
+                               "link_is": "an entry row of the listing" if p["via"] == "row" else "navigation added by the renderer (outside the entry rows)",
+                               "listing_selector": p["parent"], "link_selector_latin1": p["selector"], "advertised_type": p["type"],
+                               "request_latin1": p["request"], "response_latin1": p["out"][:300], "log": p["log"][-3:], "config": j["config"], "tree": j["tree"]},
+                              tag="dead-%s:%s:%s" % ("link" if p["via"] == "row" else "navigation-link", j["_list"], p["proto"]))
+    return found, {"site_x_handler_list": per, "links_followed": nlinks, "renderer_made_links_followed": nnav}
+
+
 def run(tier):
     chk = Check("C05", tier)
     chk.proofs(extra_files=["Corr/K05.v"])   # [agentH]
@@ -295,6 +395,10 @@ def run(tier):
     # ---- mailbox content: two readers of one file (the listing's and the message handler's) must agree ----
     mail_found, mail_cov = mail_leg(chk, tier)
     found = found or mail_found
+
+    # ---- handler lists other than the shipped one; every local link of a page, the renderer's own navigation included ----
+    hl_found, hl_cov = handler_list_leg(chk, tier)
+    found = found or hl_found
 
     # ---- maintenance histories: list (cache files get written), reorganise the tree the way an administrator does (rename or
     # move a directory or one of its ancestors, copy a subtree with its timestamps), let more than the cache lifetime pass,
@@ -360,7 +464,7 @@ def run(tier):
                 "request_latin1": all_pages[0][5]["request"], "response_head": all_pages[0][5]["out"][:80]})
     chk.coverage["oracle"] = {"trees": ntrees, "links_followed": nlinks, "url_links_followed": nurl, "dead_links": bad,
                               "exhaustive_crawl_per_tree": True, "maintenance_histories": len(sjobs), "links_followed_after_maintenance": nstage_links,
-                              "mail_folders": mail_cov}
+                              "mail_folders": mail_cov, "handler_lists": hl_cov}
     chk.coverage["rule"] = ("generated trees with hostile names (spaces, reserved URL characters, non-UTF-8 bytes, HTML metacharacters), "
                             "valid UTF-8 names with invisible/format/combining/astral characters, URL: items of gophermaps and link files (local type-h links), "
                             "mailboxes, Maildirs, gophermaps, UMN link files; mbox files and Maildirs whose content lets two readers disagree about message "
